@@ -13,6 +13,7 @@ import (
 	"strconv"
 	"strings"
 
+	"verif/checker/internal/dtab"
 	"verif/checker/internal/lin"
 	"verif/checker/internal/load"
 	"verif/checker/internal/modsum"
@@ -29,6 +30,13 @@ type Ctx struct {
 }
 
 func NewCtx(p *load.Program, tier string, run *report.Run) *Ctx {
+	declResolver = func(fn *types.Func) *load.FuncInfo { return p.Decls[fn] }
+	dtab.Resolver = func(fn *types.Func) (*ast.FuncDecl, *types.Info) {
+		if fi := p.Decls[fn]; fi != nil {
+			return fi.Decl, fi.Pkg.TypesInfo
+		}
+		return nil, nil
+	}
 	return &Ctx{P: p, Tier: tier, Run: run, cache: map[string][]*shape.Result{}}
 }
 
